@@ -37,6 +37,11 @@ func runC01(c *Ctx) {
 	r02_1(c, "R01.12")
 	// file bytes: the file writer stores every chunk it is handed (shared with C05)
 	r05_5(c, "R01.13")
+	// file bytes, sending side: sendFile moves every byte it reads into the
+	// chunk writer and a failed read or copy reaches no success return, so
+	// the end-of-data marker never follows a partial copy (shared with C06;
+	// wave 26: a read error swallowed "unless the stream failed")
+	r06_10(c, "R01.22")
 	if c.Unix() {
 		// device numbers are decoded in full (shared with C02)
 		r02_8(c, "R01.14")
